@@ -76,9 +76,13 @@ CLOSURES = {
                 title="closure: EoWriter + writer-algebra lemmas"),
     "C16": dict(modules=["contracts.number", "contracts.strings", "contracts.writer", "lemmas.writer_algebra"],
                 title="closure: EoWriter + writer-algebra lemmas"),
+    # "serializing the same instance twice yields identical bytes" needs the writer to append a function of its arguments
+    # and mode only (lemmas.writer_algebra), whatever was written before by anybody
+    "C19": dict(modules=["contracts.number", "contracts.strings", "contracts.writer", "lemmas.writer_algebra"],
+                title="closure: EoWriter + writer-algebra lemmas (the appended bytes depend on arguments and mode only)"),
     "C03": dict(modules=["contracts.number", "contracts.strings", "contracts.reader", "lemmas.reader_algebra"],
-                title="closure: EoReader + reader-algebra lemmas",
-                extra=extras.reader_algebra),
+                title="closure: EoReader + reader-algebra lemmas + enum construction contract (bounded)",
+                extra=extras.c03_closure),
     "C15": dict(modules=["contracts.number", "contracts.strings", "contracts.writer", "contracts.reader",
                          "lemmas.reader_algebra", "lemmas.writer_algebra"],
                 title="closure: EoWriter + EoReader + reader-algebra lemmas", extra=extras.reader_algebra),
